@@ -104,11 +104,10 @@ package runtime
 //@   ensures implies(w != nil && !dyntype(w, *Buffer), target(b.b) == w)
 //@   ensures implies(w != nil && !dyntype(w, *Buffer), pending(b.b) == "" && sticky(b.b) == nil)
 
-//@ spec wfBuffer(b) = b != nil && b.b != nil && sameWriter(target(b.b), b.Underlying)
-
 // ReleaseBuffer: the flush error is the result (never swallowed).
 //@ func ReleaseBuffer [C10]
-//@   requires implies(dyntype(w, *Buffer), wfBuffer(payload(w, *Buffer)))
+//@   requires implies(dyntype(w, *Buffer), payload(w, *Buffer) != nil && payload(w, *Buffer).b != nil)
+//@   requires implies(dyntype(w, *Buffer), target(payload(w, *Buffer).b) == underlying(w))
 //@   modifies doc(w), failedDuring
 //@   ensures implies(!dyntype(w, *Buffer), err == nil && failedDuring == old(failedDuring) && doc(w) == old(doc(w)))
 //@   ensures implies(dyntype(w, *Buffer), isPrefix(old(out(underlying(w))), out(underlying(w))))
